@@ -1,6 +1,7 @@
 import CollectionsC.Driver.Cmd
 import CollectionsC.Spec.OrdMapSpec
 import CollectionsC.Model.TreeTable
+import CollectionsC.Model.PTree
 -- container: treetable
 namespace CC.Driver.TreeTableD
 open CC CC.Driver
@@ -27,24 +28,52 @@ structure Sess where
   mem   : Mem := {}
   /-- `obs=sparse`: the content is printed by `observe` only -/
   sparse : Bool := false
+  /-- the pointer-level model (Model/PTree.lean), run alongside: the dump is printed from its heap -/
+  pt  : PTree.PT := {}
+  pit : Option PTree.PIter := none
 
 def fmtTree : Tree → String
   | .nil => "."
   | .node c l k v r => s!"({if c = .black then "B" else "R"} {k}:{v} {fmtTree l} {fmtTree r})"
 
-/-- a node pointer of the iterator: key and position (the C shim computes the position by climbing the
-parent pointers) -/
-def fmtNode (t : Tree) (k : Nat) : String :=
-  match Tree.posOf k t with
-  | some p => s!"{k}/" ++ String.join (p.map fun d => match d with | .L => "L" | .R => "R")
-  | none => s!"{k}/?"
+/-- the dump of the pointer-level heap: colour, key:value, `#id^parent-id`, children (pre-order) -/
+def fmtPT (h : PTree.Heap) : Nat → Nat → String
+  | 0, _ => "..."
+  | f + 1, n =>
+    if n = PTree.S then "." else
+    let nd := h.get n
+    let par := if nd.parent = PTree.S then "S" else toString nd.parent
+    s!"({if nd.color = .black then "B" else "R"} {nd.key}:{nd.value}#{n}^{par} {fmtPT h f nd.left} {fmtPT h f nd.right})"
 
-def fmtIter (t : Tree) : Option TreeIter → String
+/-- a node pointer of the iterator: key (inductive model), node id (pointer-level model) and position (the C
+shim computes the position by climbing the parent pointers) -/
+def fmtNode (t : Tree) (pt : PTree.PT) (k : Nat) (id : Option Nat) : String :=
+  let ids := match id with
+    | some i => if i ≠ PTree.S ∧ (pt.heap.get i).key = k then toString i else "!"
+    | none => "!"
+  match Tree.posOf k t with
+  | some p => s!"{k}#{ids}/" ++ String.join (p.map fun d => match d with | .L => "L" | .R => "R")
+  | none => s!"{k}#{ids}/?"
+
+def fmtIter (t : Tree) (pt : PTree.PT) (pit : Option PTree.PIter) : Option TreeIter → String
   | none => "-"
   | some it =>
-    let c := match it.cur with | .sentinel => "S" | .null => "N" | .at k => fmtNode t k
-    let n := match it.next with | none => "S" | some k => fmtNode t k
+    let c := match it.cur with | .sentinel => "S" | .null => "N" | .at k => fmtNode t pt k (pit.bind (fun (x : PTree.PIter) => x.cur))
+    let n := match it.next with | none => "S" | some k => fmtNode t pt k (pit.map (fun (x : PTree.PIter) => x.next))
     s!"cur:{c},next:{n}"
+
+/-- the pointer-level model follows the table calls (`ok`: the call did not report `CC_ERR_ALLOC`) -/
+def ptStep (cmp : Nat → Nat → Int) (pt : PTree.PT) (op : Op) (ok : Bool) : PTree.PT :=
+  match op with
+  | .add k v => PTree.add cmp pt k v ok
+  | .remove k => PTree.remove cmp pt k
+  | .removeFirst => PTree.removeFirst pt
+  | .removeLast => PTree.removeLast pt
+  | .removeAll => PTree.removeAll pt
+  | _ => pt
+
+/-- the two Lean models agree: same tree (shape, colours, keys, values), same size -/
+def ptAgrees (pt : PTree.PT) (t : TreeTable) : Bool := PTree.toTree pt == t.root && pt.size == t.size
 
 def content (m : OrdMap) : String :=
   s!"keys={fmtList (OrdMap.keys m)} vals={fmtList (OrdMap.values m)} size={m.length}"
@@ -56,8 +85,9 @@ def obsS (f : Option OrdMap) : String := content (f.getD [])
 def phys (s : Sess) (cmps : Nat) : String :=
   match s.model with
   | none => "-"
-  | some t => s!"size={t.size} cmps={cmps} it={fmtIter t.root s.iter} tree={fmtTree t.root}"
-def inv (s : Sess) : Bool := match s.model with | none => true | some t => decide (t.Inv (cmpOf s.which))
+  | some t => s!"size={t.size} cmps={cmps} it={fmtIter t.root s.pt s.pit s.iter} tree={fmtPT s.pt.heap (s.pt.size + 1) s.pt.root}"
+def inv (s : Sess) : Bool :=
+  match s.model with | none => true | some t => decide (t.Inv (cmpOf s.which)) && ptAgrees s.pt t
 
 /-- header of a result: status, out-value, callback log -/
 def hdr (st : Option Stat) (val : Option Nat) (cb : Option (List Nat)) (noout : Bool := false) : String :=
@@ -103,7 +133,7 @@ def step (s : Sess) (c : Cmd) : Sess × String × String :=
     -- `new_default`: the library's default constructor, i.e. the C library's allocator triple
     let (st, t, m) := TreeTable.newT (if c.op == "new_default" then .libc else .conf) m
     let (sst, sp) : Stat × Option OrdMap := if c.fired > 0 then (.errAlloc, none) else (.ok, some [])
-    let s' : Sess := { which := c.nat "cmp" 0, model := t, spec := sp, mem := m, sparse := c.str "obs" == some "sparse" }
+    let s' : Sess := { which := c.nat "cmp" 0, model := t, spec := sp, mem := m, sparse := c.str "obs" == some "sparse", pt := PTree.new }
     (s', lineS (fmtStat sst) s', lineM (fmtStat st) s' 0)
   | _ =>
   match s.model, s.spec with
@@ -113,23 +143,26 @@ def step (s : Sess) (c : Cmd) : Sess × String × String :=
     | some op =>
       let (o, t', m, n) := t.step cmp op m
       let (so, f') := OrdMap.step cmp f op (c.fired > 0)
-      let s' : Sess := { s with model := some t', spec := some f', mem := m }
+      let pt' := ptStep cmp s.pt op (o.st != some Stat.errAlloc)
+      let s' : Sess := { s with model := some t', spec := some f', mem := m, pt := pt' }
       let cb (o : Out) := if isForeach op then some o.log else none
       (s', lineS (hdr so.st so.val (cb so) noout) s', lineM (hdr o.st o.val (cb o) noout) s' n)
     | none =>
     match c.op with
     | "it_new" =>
-      let s' : Sess := { s with iter := some t.iterInit, cursor := some (Cursor.init f), mem := m }
+      let pit' := some (PTree.iterInit s.pt)
+      let s' : Sess := { s with iter := some t.iterInit, cursor := some (Cursor.init f), mem := m, pit := pit' }
       (s', lineS "st=-" s', lineM "st=-" s' 0)
     | "it_drop" =>
-      let s' : Sess := { s with iter := none, cursor := none, mem := m }
+      let s' : Sess := { s with iter := none, cursor := none, mem := m, pit := none }
       (s', lineS "st=-" s', lineM "st=-" s' 0)
     | "it_next" =>
       match s.iter, s.cursor with
       | some it, some cu =>
         let (st, e, it') := t.iterNext it
         let (sst, se, cu') := cu.next f
-        let s' : Sess := { s with iter := some it', cursor := some cu', mem := m }
+        let pit' := s.pit.map (PTree.iterNext s.pt)
+        let s' : Sess := { s with iter := some it', cursor := some cu', mem := m, pit := pit' }
         let h (st : Stat) (e : Option (Nat × Nat)) :=
           match e with | some (k, v) => s!"{fmtStat st} k={k} out={v}" | none => fmtStat st
         (s', lineS (h sst se) s', lineM (h st e) s' 0)
@@ -142,7 +175,10 @@ def step (s : Sess) (c : Cmd) : Sess × String × String :=
         else
         let (st, v, t', it', m) := t.iterRemove cmp it m
         let (sst, sv, cu', f') := cu.remove f
-        let s' : Sess := { s with model := some t', spec := some f', iter := some it', cursor := some cu', mem := m }
+        let pr := match s.pit with
+          | some pi => let r := PTree.iterRemove s.pt pi; (r.1, some r.2)
+          | none => (s.pt, none)
+        let s' : Sess := { s with model := some t', spec := some f', iter := some it', cursor := some cu', mem := m, pt := pr.1, pit := pr.2 }
         (s', lineS (hdr (some sst) sv none noout) s', lineM (hdr (some st) v none noout) s' 0)
       | _, _ => let s' := { s with mem := m }; (s', lineS "st=- noiter" s', lineM "st=- noiter" s' 0)
     | "observe" =>
